@@ -1,13 +1,32 @@
 """C17 - inferred column mappings lose no column and prefer exact names"""
+from contracts import namemap
+
 LEVEL = "other"
-TRUSTED = ["reference semantics written from the property statement (native/pure_bounded.py)"]
-EXPLANATION = ("BOUNDED STAND-IN ONLY: real infer_node_name_map / infer_edge_name_map (real difflib) on column lists drawn from a 28-word vocabulary of similar names (all 3-subsets sampled + random 4..8-subsets + regression lists), for ndim None/3/4 and two sets of required keys; checks 'every column used exactly once, none twice, none invented; a column spelled like a required key or seg_id maps to it'.")
-ASSUMPTIONS = ["bounded stand-in only: exhaustive/sampled over the stated finite space, not a proof"]
-NOT_UNDER_CONTRACT = ["_match_exact", "_match_fuzzy", "_match_display_names_exact", "_match_display_names_fuzzy", "_map_remaining_to_self", "infer_node_name_map", "infer_edge_name_map"]
+TRUSTED = ["ASSUMED step contract (S1-S5 with list-valued entries) of _match_display_names_exact / _match_display_names_fuzzy at their call sites in the two "
+           "pipelines - not proved; exercised by the bounded stand-in c17",
+           "difflib.get_close_matches(word, possibilities, n, cutoff) returns at most n of the possibilities; str.lower is a function",
+           "build_display_name_mapping only produces feature keys of the features it is given",
+           "a list of distinct column names is abstracted to its set (order dropped; exact for in / copy / remove / len == 0)",
+           "reference semantics of the bounded stand-in written from the property statement (native/pure_bounded.py)"]
+EXPLANATION = ("PROVED (SMT, unbounded - every list of distinct columns, every list of target fields / required keys, every feature table): "
+               "(1) the real _match_exact against its functional spec (a column stays iff it is not a newly mapped target field; a target field naming a "
+               "column is mapped to exactly that column; existing entries are never overwritten) and the real _match_fuzzy against the step contract "
+               "S1-S5 (list shrinks, never overwrites, each consumed column is the value of exactly one new key, new keys are target fields) by loop "
+               "invariants with ghost 'seen fields' and 'owner' maps; the real _map_remaining_to_self; "
+               "(2) the real bodies of infer_node_name_map and infer_edge_name_map, with the steps used through their contracts: every source column is "
+               "used by exactly one key (as its value, as an element of a list value, or mapped to itself) and nothing else is used; a column spelled "
+               "like a required key or like seg_id is mapped to that key. The argument that the final update() with the self-mapped remainder cannot "
+               "overwrite a key (no remaining column is spelled like a standard field or a feature key, because the two exact steps consumed those) is "
+               "part of the discharged obligations. "
+               "BOUNDED STAND-IN: the two display-name steps (whose contract is assumed above) and an end-to-end cross-check with the real difflib on "
+               "column lists drawn from a vocabulary of similar and competing names.")
+ASSUMPTIONS = ["column names are distinct (the property's quantifier)", "bounded stand-in: sampled over the stated finite space, not a proof"]
+NOT_UNDER_CONTRACT = ["_match_display_names_exact (assumed contract + bounded)", "_match_display_names_fuzzy (assumed contract + bounded)",
+                      "build_display_name_mapping (assumed)"]
 
 
 def units(tier):
-    return []
+    return namemap.units()
 
 
 def bounded(tier, seed):
